@@ -130,6 +130,31 @@ pub fn run(ctx: &mut Ctx) {
             ctx.nontrivial(to.shape_hash());
             roundtrip(ctx, &ob, "obscured", None);
         }
+        // merging a redacted copy back: re-adding elided / compressed / encrypted forms of assertions that
+        // are already present must change nothing, and the result must still round-trip
+        if e.is_node() && case % 3 == 0 {
+            let mut merged = e.clone();
+            for a in e.assertions() {
+                let form = match rng.below(3) {
+                    0 => a.elide(),
+                    1 => a.compress().unwrap_or(a.clone()),
+                    _ => a.encrypt_subject(&key).unwrap_or(a.clone()),
+                };
+                merged = merged.add_assertion_envelope(form).unwrap_or(merged);
+            }
+            ctx.count("merged_redacted_copies");
+            roundtrip(ctx, &merged, "merged-redacted-copy", Some(&mb));
+            // and the other way round: the clear assertions added onto the redacted copy
+            let mut redacted = e.clone();
+            for a in e.assertions() {
+                redacted = redacted.elide_removing_target(&a);
+            }
+            let mut back = redacted.clone();
+            for a in e.assertions() {
+                back = back.add_assertion_envelope(a).unwrap_or(back);
+            }
+            roundtrip(ctx, &back, "clear-onto-redacted-copy", None);
+        }
         // whole-envelope forms
         match rng.below(4) {
             0 => roundtrip(ctx, &e.elide(), "elided-whole", None),
